@@ -981,7 +981,7 @@ func ModifyRegister(register *object.Register, in ast.Node) (ast.Node, bool) {
 			register.Count++
 			return register, true
 		}
-		if in.Literal() == "eval" || in.Literal() == "load" {
+		if in.Literal() == "eval" || in.Literal() == "load" || in.Literal() == "defun" {
 			// code evaluated in this scope at run time may name the variable: it has to be a regular one.
 			return nil, false
 		}
